@@ -58,7 +58,8 @@ pub fn check(c: &Case, ctx: &mut Ctx) -> Result<(), Failure> {
         hmax = hmax.max(x);
         let t = i + 1;
         let w0 = t - t.min(n);
-        let s = tau(t) * big;
+        // + 4 units of the smallest subnormal: rounding granularity when the inputs themselves are subnormal
+        let s = tau(t) * big + 2e-323;
         if t >= 2 {
             let wmaxabs = hist[w0.min(t - 1)..t - 1].iter().fold(0.0f64, |a, v| a.max(v.abs()));
             if x.abs() > 0.0 && wmaxabs / x.abs() >= 1e6 {
@@ -170,8 +171,10 @@ const BK: [Kind; 4] = [Kind::Tr, Kind::Atr, Kind::Kc, Kind::Ce];
 /// huge values followed by flat stretches of small ones, alternating +-M, etc.
 fn cancel_stream(lo: usize, hi: usize) -> BoxedStrategy<Vec<f64>> {
     prop_oneof![
-        3 => multi_stream(Domain::AnySign, lo, hi).prop_map(|s| s.vals),
-        2 => (proptest::collection::vec((0.0f64..1.0, 0.0f64..1.0), lo..=hi), -6.0f64..12.0, -6.0f64..3.0).prop_map(|(us, eb, es)| {
+        6 => multi_stream(Domain::AnySign, lo, hi).prop_map(|s| s.vals),
+        1 => stream(Domain::TinyAnySign, lo, hi).prop_map(|s| s.vals),
+        1 => stream(Domain::TinyPositive, lo, hi).prop_map(|s| s.vals),
+        4 => (proptest::collection::vec((0.0f64..1.0, 0.0f64..1.0), lo..=hi), -6.0f64..12.0, -6.0f64..3.0).prop_map(|(us, eb, es)| {
             // blocks: a few huge values, then a flat stretch of a small one
             let bigv = 10f64.powf(eb);
             let small = 10f64.powf(es);
@@ -221,4 +224,20 @@ pub fn run(g: &mut Global) {
     if g.tier == Tier::Thorough {
         g.random("long", 800, &|| strategy(3000, 8000), &check);
     }
+    // the every-step sign invariant of SD / BB / MAD on single-instance streams beyond 2^16 inputs
+    // (c13's stream generator; only the "never negative, never NaN" clause is judged here)
+    let seed = g.seed;
+    let wk = [(Kind::Sd, 20usize), (Kind::Sd, 3), (Kind::Bb, 14), (Kind::Bb, 5), (Kind::Mad, 7), (Kind::Sd, 8)];
+    g.exhaustive(
+        "long_sign",
+        g.tier.pick(6 * 5, 6 * 5 * 4),
+        &move |i| {
+            let (kind, n) = wk[(i % 6) as usize];
+            let regime = ((i / 6) % 5) as usize;
+            let mut s = seed ^ (i + 11).wrapping_mul(0xA0761D6478BD642F);
+            let sd = splitmix(&mut s);
+            crate::props::c13::Case { kind, n, regime, base: X([1e-3, 0.1, 85.18, 1234.56, 64999.01, 1e6][(sd % 6) as usize]), seed: sd, len: 140_000, saw: 2 + (sd >> 9) as usize % (n + 2) }
+        },
+        &|c, ctx| crate::props::c13::check_mode(c, ctx, "C09", true, true),
+    );
 }
